@@ -39,6 +39,7 @@ EDITS = [
     ("change public attribute value", "pkg/plain.py", "value = 10", "value = 11", True, ["pkg.plain.value"]),
     ("change exported attribute value", "pkg/api.py", "CONST = 1", "CONST = 2", True, ["pkg.api.CONST", "pkg.CONST"]),
     ("remove base class", "pkg/api.py", "class Child(Base):", "class Child:", True, ["pkg.api.Child"]),
+    ("replace base class (the old base is removed, another one takes its place)", "pkg/api.py", "class Child(Base):", "class Child(Exception):", True, ["pkg.api.Child"]),
     ("remove re-exported object (only reachable through __all__)", "pkg/__init__.py", "from pkg._impl import Foo, helper\nfrom pkg.api import *\nfrom pkg import api\n__all__ = ['Foo', 'helper', ",
      "from pkg._impl import Foo\nfrom pkg.api import *\nfrom pkg import api\n__all__ = ['Foo', ", True, ["pkg.helper", "pkg._impl.helper"]),
     ("remove member of re-exported class", "pkg/_impl.py", "    def meth(self):\n        pass\n", "", True, ["pkg.Foo.meth", "pkg._impl.Foo.meth"]),
@@ -196,7 +197,7 @@ def gen_edit(rnd, files, objects):
     if o["kind"] == "attribute":
         kinds.append("change_value")
     if o["kind"] == "class":
-        kinds += ["remove_member", "change_member_value", "change_hidden_member"] + (["remove_base"] if o["has_base"] else [])
+        kinds += ["remove_member", "change_member_value", "change_hidden_member"] + (["remove_base", "replace_base", "add_base"] if o["has_base"] else [])
     e = rnd.choice(kinds)
     src = files[rel]
     drop_from_all = lambda text: text.replace(repr(o["name"]) + ", ", "").replace(", " + repr(o["name"]), "").replace(repr(o["name"]), "")  # noqa: E731
@@ -212,6 +213,12 @@ def gen_edit(rnd, files, objects):
         new[rel] = src.replace(o["text"], f"{o['name']} = 'changed'\n", 1)
     elif e == "remove_base":
         new[rel] = src.replace(o["text"], o["text"].replace("(Root)", "", 1), 1)
+    elif e == "replace_base":
+        # another base takes the place of the old one: the old base is removed all the same
+        new[rel] = "class OtherRoot:\n    pass\n" + src.replace(o["text"], o["text"].replace("(Root)", "(OtherRoot)", 1), 1)
+    elif e == "add_base":
+        new[rel] = "class OtherRoot:\n    pass\n" + src.replace(o["text"], o["text"].replace("(Root)", "(Root, OtherRoot)", 1), 1)
+        breaking = False
     elif e == "remove_member":
         new[rel] = src.replace(o["text"], o["text"].replace("    def method(self, x):\n        return x\n", "", 1), 1)
     elif e == "change_member_value":
